@@ -7,6 +7,7 @@ fill_negatives_with_positives, increase_biofuels_then_feed.
 from pyvc.vc import Contract
 from pyvc.spec import V, And, Or, Not, Implies, If, Abs, Min, Max, Sum, unwrap
 from pyvc.loops import LoopSpec
+from pyvc.values import Arr
 
 PARAMS = "src/optimizer/parameters.py"
 VALID = "src/optimizer/validate_results.py"
@@ -177,16 +178,20 @@ class FillNegatives(Contract):
 
     def inputs(self, S):
         arr = S.series("arr", self.n)
-        return dict(args=[S.obj(PARAMS, "Parameters"), arr], arr=arr)
+        before = [V(unwrap(arr).get(k)) for k in range(self.n)]   # the caller's array as it was (a float ndarray)
+        return dict(args=[S.obj(PARAMS, "Parameters"), arr], arr=arr, before=before)
 
     def ensures(self, S, a, res):
         n = self.n
         out = {}
+        old = V(Arr(n, elems=[unwrap(x) for x in a["before"]], dtype="float"))
         for k in range(n):
-            for name, c in fill_contract_clauses(S, a["arr"], res, n, k).items():
+            for name, c in fill_contract_clauses(S, old, res, n, k).items():
                 out[f"{name}[{k}]"] = c
-        out["sum_preserved"] = S.total(res) == S.total(a["arr"])
-        out["all_non_negative_when_total_is"] = Implies(S.total(a["arr"]) >= 0, And(*[res[k] >= 0 for k in range(n)]))
+        out["sum_preserved"] = S.total(res) == S.total(old)
+        out["all_non_negative_when_total_is"] = Implies(S.total(old) >= 0, And(*[res[k] >= 0 for k in range(n)]))
+        # frame: the caller computes `filled - difference` afterwards, so its array must not be filled in place
+        out["callers_array_left_as_it_was"] = And(V(unwrap(a["arr"]) is not unwrap(res)), *[a["arr"][k] == a["before"][k] for k in range(n)])
 
         return out
 
